@@ -162,6 +162,9 @@ NotServingOnce == /\ faults < MaxFaults /\ ~nsre /\ nsre' = TRUE /\ faults' = fa
                   /\ UNCHANGED <<avail, nextGen, closedGens, client, connUp, cached, dead, panicked, cpc, cwait, ccl, epc, ecl, cdone>>
 Split == /\ AllowSplit /\ faults < MaxFaults /\ ~dead /\ dead' = TRUE /\ faults' = faults + 1   \* cache put of a daughter: MarkDead
          /\ UNCHANGED <<avail, nextGen, closedGens, client, connUp, cached, panicked, cpc, cwait, ccl, epc, ecl, nsre, cdone>>
+(* a caller of ANOTHER region that shares the connection notices its death first and takes it out of the cache *)
+OtherRegionDown == /\ cached # 0 /\ ~connUp[cached] /\ cached' = 0
+                   /\ UNCHANGED <<avail, nextGen, closedGens, client, connUp, dead, panicked, cpc, cwait, ccl, epc, ecl, faults, nsre, cdone>>
 Close == /\ AllowClose /\ ~cdone /\ cdone' = TRUE
          /\ (IF avail = 0 THEN avail' = nextGen /\ nextGen' = nextGen + 1 ELSE UNCHANGED <<avail, nextGen>>)   \* closeAll marks, nobody establishes
          /\ client' = 0
@@ -171,7 +174,7 @@ Terminated == AllDone /\ (\A e \in Ests : epc[e] = "free") /\ UNCHANGED vars
 
 Next == \/ \E c \in Callers : Caller(c)
         \/ \E e \in Ests : Est(e)
-        \/ ConnDies \/ NotServingOnce \/ Split \/ Close \/ Terminated
+        \/ ConnDies \/ NotServingOnce \/ Split \/ Close \/ OtherRegionDown \/ Terminated
 Spec == Init /\ [][Next]_vars
 
 ----------------------------------------------------------------------------
